@@ -348,32 +348,80 @@ class Flow(object):
             nd = nd | {a.name}
         return (frozenset(nd), nf)
 
+    def relevant(self, ref):
+        """keep only facts about paths worth tracking (None-tested names and
+        the None-able candidates): bounds the number of abstract states"""
+        return [(p, f) for p, f in ref if p in self.tracked]
+
+    def _tracked(self):
+        out = set(self.noneable or ())
+        for a in self.none_attrs:
+            out.add('self.' + a)
+            out.add('spawn.' + a)
+            out.add('self.spawn.' + a)
+        for n in iter_nodes(self.fi.node):
+            if isinstance(n, ast.Compare) and len(n.ops) == 1 and isinstance(n.ops[0], (ast.Is, ast.IsNot)) \
+                    and isinstance(n.comparators[0], ast.Constant) and n.comparators[0].value is None:
+                p = _path_of(n.left)
+                if p:
+                    out.add(p)
+        # names whose truthiness guards a conditional definition
+        for n in iter_nodes(self.fi.node):
+            if isinstance(n, ast.If):
+                t = n.test
+                while isinstance(t, ast.UnaryOp) and isinstance(t.op, ast.Not):
+                    t = t.operand
+                p = _path_of(t)
+                if p and any(isinstance(x, (ast.Assign, ast.For, ast.With)) for s in n.body + n.orelse for x in ast.walk(s)):
+                    out.add(p)
+        return out
+
     def run(self):
         g = self.g
+        self.tracked = self._tracked()
         init = (frozenset(self.params), ())
-        self.states = {g.entry: {init}}
+        # states per node: facts -> definitely-bound names (intersection over paths with the same facts)
+        self.states = {g.entry: {(): frozenset(self.params)}}
+        dirty = {g.entry: {()}}
         work = [g.entry]
         while work:
             n = work.pop()
-            ins = list(self.states.get(n, ()))
-            for st in ins:
+            keys = dirty.pop(n, set())
+            cur_n = self.states.get(n, {})
+            for facts in keys:
+                if facts not in cur_n:
+                    continue
+                defined = cur_n[facts]
+                st = (defined, facts)
                 out = self.transfer(n, st)
+                out = (out[0], tuple(x for x in out[1] if x[0] in self.tracked))
                 for s, lab in n.succ:
                     if lab == 'exc':
                         cand = st
                     elif n.kind == 'test' and lab in ('true', 'false'):
-                        ref = refine(n.ast, lab == 'true')
+                        ref = self.relevant(refine(n.ast, lab == 'true'))
                         if contradicts(out[1], ref):
                             continue
                         cand = (out[0], add_facts(out[1], ref))
                     else:
                         cand = out
-                    cur = self.states.setdefault(s, set())
-                    if cand not in cur:
+                    cur = self.states.setdefault(s, {})
+                    cd, cf = cand
+                    changed = False
+                    if cf not in cur:
                         if len(cur) >= MAX_STATES:
                             raise AnalysisError('nullness: too many states in %s' % self.fi.qual)
-                        cur.add(cand)
-                        self.prev[(s, cand)] = (n, st)
+                        cur[cf] = cd
+                        self.prev[(s, (cd, cf))] = (n, st)
+                        changed = True
+                    else:
+                        nd = cur[cf] & cd
+                        if nd != cur[cf]:
+                            cur[cf] = nd
+                            self.prev[(s, (nd, cf))] = (n, st)
+                            changed = True
+                    if changed:
+                        dirty.setdefault(s, set()).add(cf)
                         if s not in work:
                             work.append(s)
         return self
